@@ -95,17 +95,19 @@ def dump_once(case, root, tag):
     """returns (written descriptor, stats, returned dp descriptor, incoming descriptor, reader)"""
     import dataflows as DF
     shape, text = case['shape'], case['text']
+    # multi-byte text in the DESCRIPTOR too (a field name): sizes are bytes, not characters, also for datapackage.json
+    FB = 'b' if text == 'ascii' else u'b\u00e9\u4e2d'
     srcs = []
     for i, nrows in enumerate(shape, start=1):
-        srcs.append([dict(a=k, b=('x%d' % k if text == 'ascii' else u'é\U0001F600%d' % k)) for k in range(1, nrows + 1)])
+        srcs.append([{'a': k, FB: ('x%d' % k if text == 'ascii' else u'é\U0001F600%d' % k)} for k in range(1, nrows + 1)])
     from ..common import tuple_source
     drops = bool(case.get('drops')) and case['incoming'] in ('fresh', 'package_totals', 'same_dir_again')      # (an earlier dumper in the flow would raise on the row)
     if drops:
         # one row per non-empty resource that the dumper's own validator (on_error=drop) throws away: it is not written, so it is not counted
         for rows in srcs:
             if rows:
-                rows.insert(1, dict(a='not-a-number', b='dropped'))
-    src = tuple_source([(RESNAME % (i + 1), [('a', 'integer'), ('b', 'string')], rows) for i, rows in enumerate(srcs)])
+                rows.insert(1, {'a': 'not-a-number', FB: 'dropped'})
+    src = tuple_source([(RESNAME % (i + 1), [('a', 'integer'), (FB, 'string')], rows) for i, rows in enumerate(srcs)])
     out = os.path.join(root, tag)
     opts = dict(format=case['format'], counters=copy.deepcopy(COUNTERS[case['counters']]), add_filehash_to_path=case['filehash'],
                 pretty_descriptor=case['pretty'])
@@ -116,7 +118,7 @@ def dump_once(case, root, tag):
         # an earlier dump of other rows (one more row per resource) into the very same target, same options: afterwards the
         # descriptor on disk must describe THIS dump (with add_filehash_to_path the data files of both dumps coexist)
         os.makedirs(out, exist_ok=True)
-        other = tuple_source([(RESNAME % (i + 1), [('a', 'integer'), ('b', 'string')], [dict(a=0, b='earlier')] + [dict(r_) for r_ in rows])
+        other = tuple_source([(RESNAME % (i + 1), [('a', 'integer'), (FB, 'string')], [{'a': 0, FB: 'earlier'}] + [dict(r_) for r_ in rows])
                               for i, rows in enumerate(srcs)])
         first = DF.dump_to_path(out, **copy.deepcopy(opts)) if case['target'] == 'path' else DF.dump_to_zip(os.path.join(out, 'o.zip'), **copy.deepcopy(opts))
         DF.Flow(other, first).process()
@@ -149,8 +151,17 @@ def dump_once(case, root, tag):
                 d[parts[-1]] = val
         links = [src, DF.update_package(**stale), tap, dumper]
     else:
-        DF.Flow(src, DF.dump_to_path(pre, counters=copy.deepcopy(COUNTERS[case['counters']]))).process()
-        links = [DF.load(os.path.join(pre, 'datapackage.json')), tap, dumper]
+        # a package that was dumped before is loaded, and dumped again.  With add_filehash_to_path (directory target): the earlier dump
+        # went into the SAME directory with hashed paths, the rows are edited on the way, so the resources arrive with a path that already
+        # carries a digest - of other bytes; what is recorded has to describe the NEW files
+        same = bool(case['filehash']) and case['target'] == 'path'
+        pre_dir = out if same else pre
+        DF.Flow(src, DF.dump_to_path(pre_dir, counters=copy.deepcopy(COUNTERS[case['counters']]), add_filehash_to_path=same)).process()
+
+        def edit(row):
+            if same and row.get(FB) is not None:
+                row[FB] = row[FB] + '!'
+        links = [DF.load(os.path.join(pre_dir, 'datapackage.json')), edit, tap, dumper]
     dp, stats = DF.Flow(*links).process()
     if case['target'] == 'path':
         written = json.load(open(os.path.join(out, 'datapackage.json')))
